@@ -291,6 +291,7 @@ def verify_contract(repo_root: str, target: str, z3_ms=None, budget_s=600.0) -> 
             res.reason = f"target {target} not found in {repo_root}"
             return res
         res.source_hash = source_hash(mod, node)
+        c.resolve_aliases(node)
         cases = list(c.type_cases())
         if len(cases) > c.max_cases:
             res.status = "error"
@@ -305,6 +306,11 @@ def verify_contract(repo_root: str, target: str, z3_ms=None, budget_s=600.0) -> 
             except Unsupported as u:
                 res.status = "undecided"
                 res.reason = f"[{label}] unsupported: {u}"
+                return res
+            dead = [t for t, (n, ok) in ex.callee_stats.items() if n > 0 and ok == 0]
+            if dead:
+                res.status = "undecided"
+                res.reason = f"[{label}] assuming the contract of {dead[0]} makes every path through it infeasible (inconsistent contract or precondition)"
                 return res
             res.paths += ex.paths
             res.cases += 1
